@@ -10,6 +10,7 @@ import (
 	"fmt"
 	"math/rand"
 	"os"
+	"os/exec"
 	"path/filepath"
 	"regexp"
 	"runtime"
@@ -22,10 +23,56 @@ import (
 	"github.com/anishathalye/porcupine"
 	oci "github.com/opencontainers/runtime-spec/specs-go"
 	"tags.cncf.io/container-device-interface/pkg/cdi"
+	"tags.cncf.io/container-device-interface/schema"
 	specs "tags.cncf.io/container-device-interface/specs-go"
 )
 
-func init() { register("C12", checkC12) }
+func init() {
+	register("C12", checkC12)
+	registerChild("c12first", childC12First)
+}
+
+// childC12First: the first uses of the package-level default cache (and of the
+// builtin schema) in this process happen concurrently, under the race detector.
+func childC12First(args []string) int {
+	root := args[0]
+	cdi.DefaultSpecDirs = []string{filepath.Join(root, "etc"), filepath.Join(root, "run")}
+	const workers = 16
+	ptrs := make([]*cdi.Cache, workers)
+	start := make(chan struct{})
+	var wg sync.WaitGroup
+	for w := 0; w < workers; w++ {
+		wg.Add(1)
+		go func(w int) {
+			defer wg.Done()
+			<-start
+			switch w % 4 {
+			case 0:
+				cdi.Configure(cdi.WithAutoRefresh(w%8 == 0))
+			case 1:
+				cdi.Refresh()
+			case 2:
+				cdi.InjectDevices(&oci.Spec{}, "vendor.com/gpu=dev0")
+			default:
+				cdi.GetErrors()
+			}
+			ptrs[w] = cdi.GetDefaultCache()
+			_ = schema.BuiltinSchema().ValidateData([]byte("{}"))
+		}(w)
+	}
+	close(start)
+	wg.Wait()
+	same := true
+	for _, p := range ptrs {
+		if p != ptrs[0] || p == nil {
+			same = false
+		}
+	}
+	devs := cdi.GetDefaultCache().ListDevices()
+	fmt.Printf("SAME %v DEVICES %d\n", same, len(devs))
+	releaseCache(cdi.GetDefaultCache())
+	return 0
+}
 
 var epoch = time.Now()
 
@@ -726,6 +773,22 @@ func checkC12(c *Ctx) {
 		c.Floor("histories_linearizable", 100)
 		c.Floor("histories_with_overlapping_clients", 100)
 		c.Floor("reads_with_version", 500)
+	}
+	// concurrent first use of the default cache in fresh (race-built) processes
+	if c.replayCase == "" || strings.HasPrefix(c.replayCase, "first-use") {
+		exe, _ := os.Executable()
+		c.RunCases("first-use", c.pick(6, 40), 3, func(cs *Case) {
+			out, err := exec.Command(exe, "child-c12first", defRoot).CombinedOutput()
+			text := string(out)
+			c.Count("first_use_processes", 1)
+			if err != nil || !strings.Contains(text, "SAME ") {
+				cs.Violation("first-use-crash", nil, fmt.Sprintf("a process whose first uses of the default cache are concurrent died: %v: %s", err, clip(text, 3000)), nil)
+				return
+			}
+			if !strings.Contains(text, "SAME true") || !strings.Contains(text, "DEVICES 1") {
+				cs.Violation("first-use", nil, "concurrent first uses of the default cache did not all get the same, fully built cache: "+clip(text, 500), nil)
+			}
+		})
 	}
 	if d := deadlocked.Load(); d != nil {
 		c.violation("cleanup", "deadlock", nil, "Cache.Configure(WithAutoRefresh(false)) never returned (60 s) on a cache that had been used concurrently", map[string]any{"goroutines": clip(*d, 30000)})
